@@ -66,6 +66,9 @@ pub enum Op {
     Store,
     Rmw,
     LockAcquire,
+    /// announced while the lock is held, right after it was taken (so that other threads can be
+    /// scheduled inside the critical section)
+    LockHeld,
     LockRelease,
     CellInsert,
 }
